@@ -430,7 +430,125 @@ func mkCase(g gval, o mopts, tvs []ntv, extra []string, tags []string) fw.Case {
 	return fw.Case{Script: s, Tags: dedup(append(tags, dt...)), Nontrivial: nt}
 }
 
+// ---- several leaves in one Set, read back by one Get ----
+
+func intOf(i int64) gval              { return gval{s: scalar{k: kInt, i: i}} }
+func decOf(d int64, p uint32) gval    { return gval{s: scalar{k: kDec, i: d, prec: p}} }
+func llOf(k skind, es ...scalar) gval { return gval{ll: true, es: es} }
+func w(opts ...uint64) mopts          { return mopts{opts: append([]uint64{}, opts...)} }
+func si(i int64) scalar               { return scalar{k: kInt, i: i} }
+func su(u uint64) scalar              { return scalar{k: kUint, u: u} }
+func sby(b ...byte) scalar            { return scalar{k: kBytes, b: b} }
+func sd(d int64, p uint32) scalar     { return scalar{k: kDec, i: d, prec: p} }
+
+// collidingGroup: values whose stored Bytes are equal although the values differ — the
+// difference (sign, precision, member boundaries) lives in TypeOpts.
+func collidingGroup(r *rng.R) []leafItem {
+	mags := []int64{1, 5, 127, 128, 255, 258, 65535, 1 << 31, 1<<63 - 1, 123456}
+	v := mags[r.Intn(len(mags))]
+	wo := []mopts{w(), w(8), w(32), w(64)}[r.Intn(4)]
+	switch r.Intn(8) {
+	case 0: // sign of an int
+		return []leafItem{{intOf(v), wo}, {intOf(-v), wo}}
+	case 1: // sign and precision of a decimal
+		p1, p2 := precisions[r.Intn(len(precisions))], precisions[r.Intn(len(precisions))]
+		if p1 == p2 {
+			p2 = (p1 + 2) % 19
+		}
+		return []leafItem{{decOf(v, p1), w()}, {decOf(v, p2), w()}, {decOf(-v, p1), w()}}
+	case 2: // member boundaries of an int leaf-list: [1,2] / [258] / signs
+		return []leafItem{{llOf(kInt, si(1), si(2)), wo}, {llOf(kInt, si(258)), wo}, {llOf(kInt, si(-1), si(2)), wo}, {llOf(kInt, si(1), si(-2)), wo}}
+	case 3: // uint leaf-lists: [1,2] / [258]; [0,5] / [5] (a zero has no bytes)
+		return []leafItem{{llOf(kUint, su(1), su(2)), wo}, {llOf(kUint, su(258)), wo}, {llOf(kUint, su(0), su(5)), wo}, {llOf(kUint, su(5)), wo}}
+	case 4: // bytes leaf-lists: [ab,c] / [a,bc] / [abc]
+		a, b, c := byte(r.U64()|1), byte(r.U64()), byte(r.U64()|1)
+		return []leafItem{{llOf(kBytes, sby(a, b), sby(c)), w()}, {llOf(kBytes, sby(a), sby(b, c)), w()}, {llOf(kBytes, sby(a, b, c)), w()}}
+	case 5: // decimal leaf-lists of one digit string at two precisions, and signs
+		return []leafItem{{llOf(kDec, sd(v, 1), sd(7, 1)), w(1)}, {llOf(kDec, sd(v, 3), sd(7, 3)), w(3)}, {llOf(kDec, sd(-v, 1), sd(7, 1)), w(1)}}
+	case 6: // an int leaf-list of random magnitudes cut at two places
+		x, y, z := int64(r.Intn(255)+1), int64(r.Intn(256)), int64(r.Intn(255)+1)
+		return []leafItem{{llOf(kInt, si(x*256+y), si(z)), wo}, {llOf(kInt, si(x), si(y*256+z)), wo}, {llOf(kInt, si(-(x*256 + y)), si(z)), wo}}
+	}
+	// the same value at several leaves (what a per-response cache is for)
+	g, o, _ := genValue(r)
+	for !e2eOK(g, o) || !inDomain(g) {
+		g, o, _ = genValue(r)
+	}
+	return []leafItem{{g, o}, {g, o}, {intOf(v), wo}, {intOf(-v), wo}}
+}
+
+func multiLine(items []leafItem) string {
+	toks := []string{"value.e2em"}
+	for _, it := range items {
+		toks = append(toks, encGVal(it.g), encOpts(it.o))
+	}
+	return fw.Join(toks...)
+}
+
+func decMulti(line string) ([]leafItem, bool) {
+	toks := strings.Fields(line)
+	if len(toks) < 3 || toks[0] != "value.e2em" || len(toks)%2 != 1 {
+		return nil, false
+	}
+	var items []leafItem
+	for i := 1; i < len(toks); i += 2 {
+		g, ok1 := decGVal(toks[i])
+		o, ok2 := decOpts(toks[i+1])
+		if !ok1 || !ok2 {
+			return nil, false
+		}
+		items = append(items, leafItem{g: g, o: o})
+	}
+	return items, true
+}
+
+func mkMultiCase(items []leafItem, tags []string) fw.Case {
+	return fw.Case{Script: []string{multiLine(items)}, Tags: dedup(tags), Nontrivial: true}
+}
+
+func genMulti(r *rng.R) fw.Case {
+	tags := []string{"end-to-end-multi"}
+	var items []leafItem
+	if r.Chance(4, 5) {
+		items = collidingGroup(r)
+		tags = append(tags, "colliding-bytes")
+	}
+	for n := r.Range(0, 2); n > 0 || len(items) < 2; n-- {
+		g, o, _ := genValue(r)
+		if o.nilPath {
+			o = mopts{opts: []uint64{}}
+		}
+		if !e2eOK(g, o) || (!inDomain(g) && !r.Chance(1, 6)) {
+			continue
+		}
+		items = append(items, leafItem{g, o})
+	}
+	// shuffle: which colliding value is converted first decides what a cache would return
+	for i := len(items) - 1; i > 0; i-- {
+		j := r.Intn(i + 1)
+		items[i], items[j] = items[j], items[i]
+	}
+	if len(items) > 6 {
+		items = items[:6]
+	}
+	mon := true
+	for _, it := range items {
+		mon = mon && inDomain(it.g)
+	}
+	if mon {
+		tags = append(tags, "monitored")
+	}
+	return mkMultiCase(items, tags)
+}
+
 func gen(r *rng.R, tier string) fw.Case {
+	multiDen := 12
+	if tier == "thorough" {
+		multiDen = 150
+	}
+	if r.Chance(1, multiDen) {
+		return genMulti(r)
+	}
 	g, o, tags := genValue(r)
 	var tvs []ntv
 	var extra []string
@@ -452,7 +570,7 @@ func gen(r *rng.R, tier string) fw.Case {
 	}
 	e2eDen := 8 // quick: ~300 end-to-end Sets; thorough: ~2000 of 120000 cases
 	if tier == "thorough" {
-		e2eDen = 50
+		e2eDen = 80
 	}
 	if r.Chance(1, e2eDen) && e2eOK(g, o) {
 		extra = append(extra, e2eLine(g, o))
@@ -598,6 +716,21 @@ func enumerate(tier string) []fw.Case {
 
 // shrinkCase proposes smaller values: fewer members, shorter members, simpler numbers.
 func shrinkCase(c fw.Case) []fw.Case {
+	if len(c.Script) == 1 {
+		if items, ok := decMulti(c.Script[0]); ok {
+			var out []fw.Case
+			for i := range items {
+				if len(items) < 2 {
+					break
+				}
+				rest := append(append([]leafItem{}, items[:i]...), items[i+1:]...)
+				nc := mkMultiCase(rest, c.Tags)
+				nc.Origin = c.Origin
+				out = append(out, nc)
+			}
+			return out
+		}
+	}
 	g, o, ok := caseValue(c)
 	if !ok {
 		return nil
